@@ -255,9 +255,22 @@ let ring_start kv =
   let prog = List.mapi (fun w n -> List.init n (fun j -> z_of_int (pattern w j))) writes in
   (ring_ops k b, ring_init (ring_output_init k) (ring_trash_init k) b prog, "")
 
+(* fine granularity: one extra scheduling point right after every semaphore post
+   (Base/LTS.v py_step, extracted) *)
+let with_post_yield (ops : 's ops) : ('s * nat list) ops =
+  let is_post s t = (ops.tag s (int_of_nat t)).[0] = 'P' in
+  { step = (fun sp t -> py_step (fun s t -> ops.step s (int_of_nat t)) is_post sp (nat_of_int t));
+    tag = (fun (s, pend) t -> if py_pending pend (nat_of_int t) then "yposted" else ops.tag s t);
+    fin = (fun (s, pend) t -> ops.fin s t && not (py_pending pend (nat_of_int t)));
+    started = (fun (s, _) t -> ops.started s t);
+    nth = ops.nth;
+    result = (fun (s, _) -> ops.result s) }
+
 (* ---------------------------------------------------------------- main *)
 let run_generic (ops, s0, note) kv fine =
   let ops = if note = "" then ops else { ops with result = (fun s -> ops.result s ^ note) } in
+  let ops = with_post_yield ops in
+  let s0 = (s0, []) in
   (* prologue of the harness: every harness thread runs up to its first scheduling point *)
   let s = ref s0 in
   for t = 0 to ops.nth - 1 do s := settle ops fine !s t done;
